@@ -57,9 +57,14 @@ PROPS = {
             "domain construction and transforms used by evaluate_over_domain/interpolate are C07's; prime-field arithmetic is C01's"],
     },
     "C11": {
-        "runs": [{"bin": "mon_ff"}],
+        "runs": [{"bin": "mon_ff"}, {"bin": "mon_ec"}],
         "assumptions": BASE_ASSUME + ["fields without a square-root algorithm (Fp6 3-over-2 without SQRT_PRECOMP, Fp12 above it) are excluded, as the property states",
                                       "curve-coordinate recovery helpers are monitored by mon_ec (toy curves exhaustively)"],
+    },
+    "C12": {
+        "runs": [{"bin": "mon_ec"}],
+        "assumptions": BASE_ASSUME + ["membership oracle r*P = O and clearing oracle [h_eff]*P use the textbook affine law (C03-checked); h_eff = COFACTOR except the documented BLS12 effective cofactors (G1: |1-x|, G2: 3(x^2-1)*h2), each checked coprime to r at run time",
+                                      "on twisted-Edwards curves with an incomplete law (te_inc toy curve, bandersnatch) points for which the affine textbook law is undefined are skipped and counted"],
     },
     "C13": {
         "runs": [{"bin": "mon_h2c", "post": "pyref/check_h2c.py"}],
@@ -68,6 +73,11 @@ PROPS = {
             "curve/isogeny constants (A', B', Z, isogeny tables, cofactor, x, r) are inputs exported from the repository (pinned by those vectors and by C16)",
             "field arithmetic, sqrt and mul_bigint used by the in-process predicates are checked by C01/C11/C04",
         ],
+    },
+    "C19": {
+        "runs": [{"bin": "mon_ff"}, {"bin": "mon_ec"}],
+        "assumptions": BASE_ASSUME + ["mathematical identity is decided by the oracle models (integer value, flat tower coordinates, affine coordinates decoded by the oracle, canonical coefficient vectors)",
+                                      "hashing uses std DefaultHasher with its fixed keys"],
     },
     "C17": {
         "runs": [{"bin": "mon_poly"}],
